@@ -28,6 +28,8 @@ ALPHABET = [
     "add_inputs2", "add_outputs2", "insert_input_end", "insert_output_end",
     # the public hashPrevouts accessor: fills the first cache slot without any sighash call
     "hi41",
+    # Clone::clone_from: the live object is overwritten in place by another transaction (its caches must go with it)
+    "clone_from",
 ]
 FILLERS = {"sh41", "sh42", "shc1", "sh43", "hi41"}
 PROBES = [
@@ -140,6 +142,19 @@ def step_of(sym, pos, model, r=None):
         return {"op": sym, "v": 0x0A0B0C00 + pos, "adopt": bool(pos & 1)}
     if sym == "clone":
         return {"op": "clone"}
+    if sym == "clone_from":
+        # the source differs from the live object in inputs, outputs, sequences: one new input/output added to the current model
+        model.ins.append(tin(t))
+        model.outs.insert(0, tout(t))
+        for i in model.ins:
+            i["seq"] = (i["seq"] ^ 0x00010000) & 0xFFFFFFFF
+        tx = {
+            "version": 7 + pos,
+            "ins": [{"txid_wire": bytes.fromhex(i["txid"])[::-1], "vout": i["vout"], "script": bytes.fromhex(i["script"]), "seq": i["seq"]} for i in model.ins],
+            "outs": [{"value": o["value"], "script": bytes.fromhex(o["script"])} for o in model.outs],
+            "locktime": 99 + pos,
+        }
+        return {"op": "clone_from", "tx": wire.tx_encode(tx).hex()}
     if sym.startswith("hi"):
         return {"op": "hash_inputs", "flag": int(sym[2:], 16)}
     if sym.startswith("sh") or sym.startswith("sg"):
@@ -208,6 +223,25 @@ def cases(ctx):
         w = [3 if s.startswith(("set_input", "set_output")) else 2 if s in FILLERS else 1 for s in syms_all]
         syms = r.choices(syms_all, weights=w, k=L)
         yield {"k": "hist", "init": init, "steps": build_history(syms, r), "probes": PROBES if L <= 300 else PROBES[:1], "tag": "long"}
+    # histories whose start object was parsed from a NON-canonical encoding (non-minimal compact-size for counts / script lengths):
+    # its current serialisation is the canonical one, and that is what the fresh copy is parsed from
+    def noncanon(n):
+        return r.choice([b"\xfd" + n.to_bytes(2, "little"), b"\xfe" + n.to_bytes(4, "little"), b"\xff" + n.to_bytes(8, "little")])
+
+    for _ in range(200 if thorough else 6):
+        which = r.choice(["out_script_len", "in_script_len", "n_in", "n_out", "all"])
+        b = bytearray((2).to_bytes(4, "little"))
+        b += noncanon(len(INIT_INS)) if which in ("n_in", "all") else wire.cs_enc(len(INIT_INS))
+        for i in INIT_INS:
+            sc = bytes.fromhex(i["script"])
+            b += bytes.fromhex(i["txid"])[::-1] + i["vout"].to_bytes(4, "little") + (noncanon(len(sc)) if which in ("in_script_len", "all") else wire.cs_enc(len(sc))) + sc + i["seq"].to_bytes(4, "little")
+        b += noncanon(len(INIT_OUTS)) if which in ("n_out", "all") else wire.cs_enc(len(INIT_OUTS))
+        for o in INIT_OUTS:
+            sc = bytes.fromhex(o["script"])
+            b += o["value"].to_bytes(8, "little") + (noncanon(len(sc)) if which in ("out_script_len", "all") else wire.cs_enc(len(sc))) + sc
+        b += (0x11223344).to_bytes(4, "little")
+        syms = [r.choice(["sh41", "shc1", "sh42", "sh43", "sg41", "hi41"])] + r.choices(syms_all, k=r.choice([0, 2, 5]))
+        yield {"k": "hist", "init": bytes(b).hex(), "steps": build_history(syms, r), "probes": PROBES, "tag": "noncanonical_init"}
     # histories that start from an empty transaction built only through the API
     for _ in range(300 if thorough else 6):
         L = r.choice([6, 10, 20])
@@ -226,6 +260,11 @@ def judge(ctx, case):
     ctx.hit("history")
     if case.get("tag") == "long":
         ctx.hit("long_history")
+    if case.get("tag") == "noncanonical_init":
+        ctx.hit("noncanonical_init")
+    if "ok" not in r and case.get("tag") == "noncanonical_init" and "drv_err" in r and "init parse" in str(r["drv_err"]):
+        ctx.note("non-canonical start encoding not accepted by the parser (nothing to compare)")
+        return
     if "ok" not in r:
         ctx.ev()
         ctx.viol("history could not be executed (%s)" % [x for x in ("err", "panic", "death", "alloc_guard", "timeout", "drv_err") if x in r][0], {"resp": {x: r[x] for x in r if x in ("err", "panic", "death", "alloc_guard")}})
